@@ -49,6 +49,8 @@ type input struct {
 	Socket bool `json:"socket,omitempty"`
 	// DefaultSecret: --default-ssl-certificate (oracle only).
 	DefaultSecret string `json:"default_secret,omitempty"`
+	// CrossNS: --allow-cross-namespace (oracle only): "ns/name" references are allowed.
+	CrossNS bool `json:"cross_ns,omitempty"`
 }
 
 func (o op) key() string { return o.Kind + "|" + o.NS + "|" + o.Name }
